@@ -93,25 +93,32 @@ related, in the frame `δ + consumed`, to the whole machine that has not consume
 theorem C02_break_split_partial {d : Nat} {ab : Ab} {sm : SeqMode} {ms mw mw0 : M κ} (h : MRel δ d 0 ab sm ms mw)
     (hP : ab.P = true) (hl : ms.c.isLast = false) (hSn : ab.Sn = true → ab.St = true) (hsm : sm ≠ .stale)
     (npw0 : Nat) (hnp : npw0 ≤ ms.c.nextPos - 1 + δ)
-    (hc0 : mw0.c = { mw.c with nextPos := npw0 }) (hx0 : mw0.x = mw.x) (hr0 : mw0.r = (leaveSeq mw).r) :
+    (hc0 : mw0.c = { mw.c with nextPos := npw0 }) (hx0 : mw0.x = mw.x) (hr0 : (leaveSeq mw0).r = (leaveSeq mw).r)
+    (sm' : SeqMode) (hout : sm' = .stale ∨ (sm' = .none ∧ chSeqOf ms.r = none ∧ chSeqOf mw0.r = none)) :
     SPanic (breakOnEndOfInput inpS ms).2 ∨
     ∃ c, (breakOnEndOfInput inpS ms).2 = some (.endOfInput c) ∧
-      BreakRel (δ + c) d (ms.c.nextPos - 1 + δ - npw0) ab.boundary (if sm = .inSeq then .stale else .none)
-        (breakOnEndOfInput inpS ms).1 mw0 ∧
+      BreakRel (δ + c) d (ms.c.nextPos - 1 + δ - npw0) ab.boundary sm' (breakOnEndOfInput inpS ms).1 mw0 ∧
       (breakOnEndOfInput inpS ms).1.x = ms.x ∧ (breakOnEndOfInput inpS ms).1.c.state = ms.c.state ∧
       (breakOnEndOfInput inpS ms).1.c.entered = ms.c.entered ∧ c + 1 ≤ ms.c.nextPos :=
-  break_split h hP hl hSn hsm npw0 hnp hc0 hx0 hr0
+  break_split h hP hl hSn hsm npw0 hnp hc0 hx0 hr0 sm' hout
 
 /-- **Both runs break at the common end of their inputs**: the consumed byte counts differ by the frame
-offset minus the text debt (`consumed_w + d = consumed_s + δ`), i.e. the *total* consumed is the same. -/
+offset minus the text debt (`consumed_w + d = consumed_s + δ`), i.e. the *total* consumed is the same; when
+not last, the two re-based machines are related in the frame `d` of the remaining text debt. -/
 theorem C02_break_both_partial (F : Frame inpS inpW δ) (hcl : Closed inpS inpW δ) {d : Nat} {ab : Ab} {sm : SeqMode}
-    {ms mw : M κ} (h : MRel δ d 0 ab sm ms mw) (hP : ab.P = true) (hsm : sm ≠ .stale)
+    {ms mw : M κ} (h : MRel δ d 0 ab sm ms mw) (hP : ab.P = true)
+    (hSn : ms.c.isLast = false → ab.Sn = true → ab.St = true) (hsm : sm ≠ .stale)
     (hK : K d ms.x.sink mw.x.sink) :
     SPanic (breakOnEndOfInput inpS ms).2 ∨
     ∃ c c', (breakOnEndOfInput inpS ms).2 = some (.endOfInput c) ∧
       (breakOnEndOfInput inpW mw).2 = some (.endOfInput c') ∧ c' + d = c + δ ∧
-      K d (breakOnEndOfInput inpS ms).1.x.sink (breakOnEndOfInput inpW mw).1.x.sink :=
-  break_both F hcl h hP hsm hK
+      K d (breakOnEndOfInput inpS ms).1.x.sink (breakOnEndOfInput inpW mw).1.x.sink ∧
+      (breakOnEndOfInput inpS ms).1.x = ms.x ∧ (breakOnEndOfInput inpW mw).1.x = mw.x ∧
+      (breakOnEndOfInput inpS ms).1.c.state = ms.c.state ∧ (breakOnEndOfInput inpS ms).1.c.entered = ms.c.entered ∧
+      (ms.c.isLast = false →
+        BreakRel d d 0 ab.boundary (if sm = .inSeq then .stale else .none)
+          (breakOnEndOfInput inpS ms).1 (breakOnEndOfInput inpW mw).1) :=
+  break_both F hcl h hP hSn hsm hK
 
 /-- **Text debt is created** (the `eoc` case): `emit_text` run by the split run alone keeps the lexer
 registers related, the debt grows by the length of the text emitted early. -/
@@ -154,21 +161,23 @@ example (tbl : Table) (last : Bool) :
 /-! ## What remains: the statements to reach -/
 
 /-- **C02_step (the "step horizon" theorem).** One state-function invocation from related machines
-(`BRel`): either both runs make the same step (`LockOut`: same signal, related machines and sinks, equal
-total consumed at a common break), or — only when the split input ends before the whole input — the split
-run breaks (`BreakOut`) and its re-based machine is related, in the frame `δ + consumed`, to the whole machine
-`mw0` that has at most run its enter actions (`stateFn mw0 = stateFn mw`). -/
+(`BRel`): either both runs make the same step (`LockOut`: same signal — on a directive change also related
+machines —, related machines and sinks, equal total consumed at a common break), or the split run breaks
+(`BreakOut`) and its re-based machine is related, in the frame `δ + consumed`, to the whole machine `mw0` that
+has at most run its enter actions (`stateFn mw0 = stateFn mw`). `eoi = true`: a common break of the two runs
+is reported as `LockOut` (possible only if the inputs end together); `eoi = false` (not last): every break of
+the split run is reported as `BreakOut`. -/
 theorem C02_step {κ : Type} {env : Env κ} {inpS inpW : Bytes} {δ : Nat} {K : Nat → κ → κ → Prop}
     (F : Frame inpS inpW δ) (hops : OpsSim env.ops inpS inpW δ K) {fs : FlagMap}
-    (hwf : WfChunkWith env.tbl fs = true) {d skip : Nat} {ms mw : M κ}
+    (hwf : WfChunkWith env.tbl fs = true) {d skip : Nat} (eoi : Bool) {ms mw : M κ}
     (hb : BRel env.tbl fs inpW δ d skip ms mw) (hK : K d ms.x.sink mw.x.sink)
-    (hil : ms.c.isLast = true → Closed inpS inpW δ) :
-    LockOut env.tbl fs inpW δ K (stateFn env inpS ms) (stateFn env inpW mw) ∨
-    (¬ Closed inpS inpW δ ∧ ∃ (x0 : Ctx κ) (mw0 : M κ),
+    (hil : ms.c.isLast = true → Closed inpS inpW δ) (heoi : eoi = false → ms.c.isLast = false) :
+    LockOut env.tbl fs inpW δ K eoi (stateFn env inpS ms) (stateFn env inpW mw) ∨
+    (∃ (x0 : Ctx κ) (mw0 : M κ),
       stateFn env inpW mw0 = stateFn env inpW mw ∧ K d x0.sink mw0.x.sink ∧ mw0.x.sim = x0.sim ∧
       x0.prevConsumed = mw0.x.prevConsumed + δ ∧
       BreakOut env.tbl fs env.ops inpS inpW δ d x0 mw0 (stateFn env inpS ms)) :=
-  stateFn_sim F hops hwf hb hK hil
+  stateFn_sim F hops hwf eoi hb hK hil heoi
 
 /-- outcome of a sequence of calls: the first result that is not `ok` -/
 def outcome : List CallRes → CallRes
